@@ -97,7 +97,7 @@ def wrapper_cases():
         orig = P._orig_parse
         P._orig_parse = rec
         tl = getattr(TH, "thread_local", None)       # the documented mechanism; C14-O states ownership on behaviour
-        had = tl is not None and hasattr(tl, "lexer")
+        had = tl is not None and "lexer" in getattr(tl, "__dict__", {})
         old = getattr(tl, "lexer", None)
         try:
             if had:
@@ -110,7 +110,7 @@ def wrapper_cases():
             if tl is not None:
                 if had:
                     tl.lexer = old
-                elif hasattr(tl, "lexer"):
+                elif "lexer" in getattr(tl, "__dict__", {}):
                     del tl.lexer
         ok = (len(calls) == 2 and r1 is sentinel and r2 is sentinel and calls[0]["input"] is inp and calls[1]["input"] is inp
               and all(c["lexer"] is not P.lexer and isinstance(c["lexer"], lex.Lexer) and c["lexer"].lexre is P.lexer.lexre
